@@ -17,6 +17,7 @@ import (
 	"sort"
 	"strconv"
 	"strings"
+	"time"
 )
 
 // Case is one correspondence case; the same three fields are interpreted by the Coq model.
@@ -40,6 +41,10 @@ type Prop struct {
 	Run func(c *Case) (string, []Fail)
 	// Children handles re-executed child-process modes (optional).
 	Child func(args []string)
+	// CaseTimeout bounds one Run (default 120 s). A case that does not return is recorded with
+	// output "hang" and as an oracle failure "<id>:hang"; no further cases are generated after it
+	// (the stuck goroutine may hold locks), so the check still ends with the hanging case as replay.
+	CaseTimeout time.Duration
 }
 
 var props = map[string]*Prop{}
@@ -57,6 +62,7 @@ type Gen struct {
 	n        int
 	nfails   int
 	seen     map[string]struct{}
+	aborted  bool
 	dist     map[string]int
 	samples  []string
 }
@@ -139,8 +145,11 @@ func (g *Gen) Case(kind int, s [][]byte, z []int64) string {
 		g.dist["_duplicate"]++
 		return ""
 	}
+	if g.aborted {
+		return ""
+	}
 	g.seen[line] = struct{}{}
-	out, fails := g.prop.Run(c)
+	out, fails := g.runWithWatchdog(c)
 	if strings.ContainsAny(out, "|\n") {
 		panic("harness: output contains separator: " + out)
 	}
@@ -157,6 +166,31 @@ func (g *Gen) Case(kind int, s [][]byte, z []int64) string {
 		fmt.Fprintf(g.failsOut, "%s\t%s\t%s\n", f.Sig, strings.ReplaceAll(f.Desc, "\t", " "), line)
 	}
 	return out
+}
+
+func (g *Gen) runWithWatchdog(c *Case) (string, []Fail) {
+	type res struct {
+		out   string
+		fails []Fail
+	}
+	ch := make(chan res, 1)
+	go func() {
+		o, f := g.prop.Run(c)
+		ch <- res{o, f}
+	}()
+	to := g.prop.CaseTimeout
+	if to == 0 {
+		to = 120 * time.Second
+	}
+	select {
+	case r := <-ch:
+		return r.out, r.fails
+	case <-time.After(to):
+		g.aborted = true
+		g.dist["_hang"]++
+		return "hang", []Fail{{Sig: strings.ToLower(g.prop.ID) + ":hang",
+			Desc: fmt.Sprintf("the implementation did not finish this case within %s (deadlock or wedge); generation stopped", to)}}
+	}
 }
 
 func main() {
